@@ -236,6 +236,31 @@ func (o *zzvOracle) allowed(p string) bool {
 	return false
 }
 
+// zzvResolveTarget: where the OS will put the requested path (abstract form): the real path of its deepest existing
+// ancestor plus the missing rest.  Not resolvable (dangling or looping link, file in the way): false.
+func zzvResolveTarget(root, path string) (string, bool) {
+	if !filepath.IsAbs(path) || strings.ContainsRune(path, 1) {
+		return "", false
+	}
+	p := filepath.Clean(path)
+	var rest []string
+	for {
+		real, err := filepath.EvalSymlinks(p)
+		if err == nil {
+			full := filepath.Join(append([]string{real}, rest...)...)
+			if full != root && !strings.HasPrefix(full, root+"/") {
+				return "", false
+			}
+			return zzvAbs(root, full), true
+		}
+		if _, lerr := os.Lstat(p); lerr == nil || !os.IsNotExist(err) || p == "/" {
+			return "", false // exists but does not resolve
+		}
+		rest = append([]string{filepath.Base(p)}, rest...)
+		p = filepath.Dir(p)
+	}
+}
+
 // ---- one request, executed the way agent.go / health server execute it ---------------------------------------
 type zzvAccResult struct {
 	ok      bool
@@ -437,6 +462,7 @@ func TestZZVAccessReplay(t *testing.T) {
 				}
 				oracle := zzvNewOracle(root, c.Pats)
 				h := NewStreamHandler(StreamConfig{Enabled: true, AllowedPaths: allowed})
+				realTarget, realTargetOK := zzvResolveTarget(root, zzvReqString(root, c.A.Req))
 				r := zzvPerform(root, h, c.A.Op, zzvReqString(root, c.A.Req), before)
 				after, err := zzvSnapshot(root)
 				if err != nil {
@@ -444,8 +470,14 @@ func TestZZVAccessReplay(t *testing.T) {
 					continue
 				}
 				// real touched set
+				implied := map[string]bool{}
 				for _, d := range zzvDiff(before, after, nil) {
 					r.touched["mod:"+d[1:]] = true
+					// creating the missing parent directories of an allowed destination is part of creating it
+					if d[0] == '+' && after[d[1:]].K == "dir" && realTargetOK && zzvUnder(realTarget, d[1:]) && realTarget != d[1:] &&
+						oracle.allowed(realTarget) {
+						implied["mod:"+d[1:]] = true
+					}
 				}
 				var outside []string
 				for tp := range r.touched {
@@ -456,7 +488,7 @@ func TestZZVAccessReplay(t *testing.T) {
 						continue
 					}
 					i := strings.Index(tp, ":")
-					if len(c.Pats) == 0 || !oracle.allowed(tp[i+1:]) {
+					if len(c.Pats) == 0 || !(oracle.allowed(tp[i+1:]) || implied[tp]) {
 						outside = append(outside, tp)
 					}
 				}
